@@ -287,3 +287,59 @@ def edges_table(nr, pmax):
     ntab = ((4 * pmax) ** nr) * (2 ** (nr - 2))
     tab = _pool_map(_edges_chunk, [(nr, pmax, lo, hi) for lo, hi in _chunks(ntab)])
     return tab, ntab * 8
+
+
+# ----------------------------------------------------------------------------------------------- MC_Pipeline (end to end)
+def _stub_extrema(sig, fs, f_range, **kw):
+    p = _CUR['place']
+    return np.array(p[0::2], dtype=int), np.array(p[1::2], dtype=int)
+
+
+PIPE_THR = {'amp_fraction_threshold': 0.25, 'amp_consistency_threshold': 0.5, 'period_consistency_threshold': 0.5, 'monotonicity_threshold': 0.5, 'min_n_cycles': 1}
+PIPE_INT = ['period', 'time_rise', 'time_decay', 'time_peak', 'time_trough', 'volt_peak', 'volt_trough', 'volt_rise', 'volt_decay']
+PIPE_RAT = ['time_rdsym', 'time_ptsym', 'band_amp', 'amp_fraction', 'amp_consistency', 'period_consistency', 'monotonicity']
+
+
+def _pipe_chunk(args):
+    ns, v, ne, lo, hi, places = args
+    import warnings
+    from bycycle.cyclepoints import find_extrema
+    from bycycle.features import compute_features
+    import record
+    t = interpose.neurodsp_targets()
+    nr = ne // 2 - 1
+    K = 2 + nr * 31
+    out = []
+    with interpose.replaced({find_extrema: _stub_extrema, t['amp_by_time']: _stub_amp}), warnings.catch_warnings():
+        warnings.simplefilter('ignore')
+        for si in range(lo, hi):
+            sig = np.array([(si // (v + 1) ** j) % (v + 1) for j in range(ns)], dtype=float)
+            _CUR['amp'] = np.array([(2 * int(sig[j]) + (j + 1)) % 4 for j in range(ns)], dtype=float)
+            for p in places:
+                _CUR['place'] = p
+                for peak in (0, 1):
+                    try:
+                        df = compute_features(sig.copy(), 100, (8, 12), center_extrema='peak' if peak else 'trough', threshold_kwargs=dict(PIPE_THR))
+                        roles = record.PEAK_ROLES if peak else record.TROUGH_ROLES
+                        e = [1, len(df)]
+                        for r in df.to_dict('records'):
+                            e.extend(int(r[roles[k]]) for k in ('lastzx', 'last', 'zx1', 'centre', 'zx2', 'next'))
+                            e.append(1 if r['is_burst'] else 0)
+                            for c in PIPE_INT:
+                                x = float(r[c])
+                                e.append(int(x) if x == int(x) else 999999999)
+                            x = 2 * float(r['volt_amp'])
+                            e.append(int(x) if x == int(x) else 999999999)
+                            for c in PIPE_RAT:
+                                e.extend(pj.rat(r[c], D=1000))
+                        out.extend(e if len(e) == K else [0] * K)
+                    except Exception:
+                        out.extend([0] * K)
+    return out
+
+
+def pipeline_table(ns, v, ne):
+    places = [list(p) for p in itertools.combinations(range(ns), ne)]
+    nsig = (v + 1) ** ns
+    tab = _pool_map(_pipe_chunk, [(ns, v, ne, lo, hi, places) for lo, hi in _chunks(nsig)])
+    return {'places': places, 'table': tab}, nsig * len(places) * 2
